@@ -319,7 +319,12 @@ fn main() {
     let mut m = Mon::new("C15", dispatch);
     m.use_hooks = true;
     if !m.replay_if_requested() {
-        workload(&mut m);
+        loop {
+            workload(&mut m);
+            if !m.another_light_pass() {
+                break;
+            }
+        }
     }
     m.finish();
 }
